@@ -369,7 +369,8 @@ def main():
         replays += 1
         rdir = os.path.join(work, "replay%d" % replays)
         os.makedirs(rdir, exist_ok=True)
-        engine_only = any(re.search(rx, v["entry"]) for rx in cfg.get("engine_replay_entries", []))
+        engine_only = any(re.search(rx, v["entry"]) for rx in cfg.get("engine_replay_entries", [])) or \
+            any(re.search(rx, v["id"]) for rx in cfg.get("engine_replay_ids", []))
         if cfg.get("native_replay", False) and v["kind"] in ("assert", "panic") and not engine_only:
             status, detail = native_replay(cfg, v, rdir)
             if status in ("error", "assume-failed", "not-reproduced"):
